@@ -260,6 +260,7 @@ pub fn fault_batch(_ctx: &mut Ctx, a: &[String]) -> Out {
         let limit = 64 * buf.len() + (64 << 20);
         mon::begin_case(i, limit);
         let live_before = mon::LIVE.load(Relaxed);
+        let malloc_before = mon::malloc_in_use();
         let cpu0 = mon::cpu_us();
         let res = {
             let _c = mon::Counted::new();
@@ -274,6 +275,7 @@ pub fn fault_batch(_ctx: &mut Ctx, a: &[String]) -> Out {
         };
         let cpu = mon::cpu_us() - cpu0;
         let live_after = mon::LIVE.load(Relaxed);
+        let malloc_delta = mon::malloc_in_use() as i64 - malloc_before as i64;
         let peak = mon::PEAK.load(Relaxed) - live_before;
         let mreq = mon::MAXREQ.load(Relaxed);
         max_cpu = max_cpu.max(cpu);
@@ -306,6 +308,9 @@ pub fn fault_batch(_ctx: &mut Ctx, a: &[String]) -> Out {
         if res.is_ok() && live_after != live_before && flags.len() < 200 {
             flags.push(obj! {"case" => i, "kind" => "residual", "value" => (live_after - live_before) as i64, "budget" => 0});
         }
+        // (the C-allocator reading is too noisy to be a verdict: tcache and arena trimming move it by
+        // hundreds of KiB; foreign-allocator leaks are decided by LSan in the asan variant instead)
+        let _ = malloc_delta;
         // a leak per case must not accumulate into the next case's accounting
     }
     let mut sv: Vec<J> = vec![];
